@@ -44,6 +44,9 @@ pub(crate) struct CallFrame {
     /// beginning of the local stack
     pub stack_offset: u32,
     pub closure: *mut CaoLangClosure,
+    /// the object that owns `closure` (null when `closure` is null): the closure being executed
+    /// has to survive collections even when the frame holds the only reference to it
+    pub closure_object: *mut CaoLangObject,
 }
 
 impl RuntimeData {
@@ -336,6 +339,18 @@ impl RuntimeData {
                 let t = &mut *object.as_ptr();
                 if matches!(t.marker, GcMarker::Protected) {
                     progress_tracker.push(t);
+                }
+            }
+        }
+
+        // closures that are being executed
+        for frame in self.call_stack.iter() {
+            unsafe {
+                if let Some(t) = frame.closure_object.as_mut() {
+                    if matches!(t.marker, GcMarker::White) {
+                        t.marker = GcMarker::Gray;
+                        progress_tracker.push(t);
+                    }
                 }
             }
         }
